@@ -122,11 +122,11 @@ def P.scenario : P Scenario := do
   let errTok ← P.tok           -- `-` | poll index | `q` (seen during the query loop)
   let errAt : Option Nat := if errTok = "-" || errTok = "q" then none else errTok.toNat?
   if errTok ≠ "-" && errTok ≠ "q" && errAt.isNone then P.fail
-  let _errAtCmd ← P.optNat      -- harness only: the mutating command that is answered with an error
+  let errAtCmd ← P.optNat       -- the mutating destination command that is answered with an error
   let _concrete ← P.tok         -- harness only: the concrete prompt-answer strings
   pure { srcRoot, destRoot, dryRun := dry, beh, filters, srcReply := r1, destReply := r2,
          destReply2 := r3, events := evs, answers := ans, files, errAtPoll := errAt,
-         errInQuery := errTok = "q" }
+         errInQuery := errTok = "q", errCmd := errAtCmd }
 
 def P.run {α} (p : P α) (toks : List String) : Option α :=
   match p toks with
